@@ -197,3 +197,45 @@ Proof.
   - apply M.
   - apply M.
 Qed.
+
+(* ---------- a horizon that begins earlier (C08): the restricted grid of a window that lies behind the added points keeps its
+   points and step lengths; its indices are shifted by the number of added points ---------- *)
+Definition prepend (pre : list Z) (g : grid) : grid :=
+  {| g_pts := pre ++ g_pts g; g_start := hd (g_start g) pre; g_end := g_end g; g_unit := g_unit g |}.
+
+Lemma filter_seq_shift (f : nat -> bool) (k : nat) : forall n a,
+  filter f (seq (k + a) n) = map (Nat.add k) (filter (fun i => f (k + i)%nat) (seq a n)).
+Proof.
+  induction n as [|n IH]; intros a; [reflexivity|]. cbn [seq filter]. rewrite <- Nat.add_succ_r, IH.
+  destruct (f (k + a)%nat); reflexivity.
+Qed.
+
+Lemma filter_none {A} (f : A -> bool) l : (forall x, In x l -> f x = false) -> filter f l = [].
+Proof.
+  induction l as [|a l IH]; intros H; [reflexivity|]. cbn [filter]. rewrite (H a (or_introl eq_refl)). apply IH. intros x Hx. apply H. right. exact Hx.
+Qed.
+
+Theorem restrict_I_prepend pre g s e :
+  g_pts g <> [] -> (forall p, In p pre -> (p < s)%Z) ->
+  restrict_I (prepend pre g) s e = map (Nat.add (List.length pre)) (restrict_I g s e).
+Proof.
+  intros Hne Hpre. unfold restrict_I, g_I, g_T, prepend. cbn [g_pts]. set (k := List.length pre).
+  assert (L : pred (List.length (pre ++ g_pts g)) = (k + pred (List.length (g_pts g)))%nat).
+  { rewrite app_length. fold k. destruct (g_pts g); [contradiction|]. cbn [List.length]. lia. }
+  rewrite L. rewrite seq_app, filter_app.
+  assert (E1 : filter (fun i => in_window s e (pt {| g_pts := pre ++ g_pts g; g_start := hd (g_start g) pre; g_end := g_end g; g_unit := g_unit g |} i)) (seq 0 k) = []).
+  { apply filter_none. intros i Hi. apply in_seq in Hi. unfold pt. cbn [g_pts]. rewrite app_nth1 by (fold k; lia).
+    unfold in_window. assert (nth i pre 0%Z < s)%Z by (apply Hpre; apply nth_In; fold k; lia).
+    destruct (Z.leb_spec s (nth i pre 0%Z)); [lia|reflexivity]. }
+  rewrite E1. cbn [app]. replace (0 + k)%nat with (k + 0)%nat by lia. rewrite filter_seq_shift. f_equal.
+  apply filter_ext. intros i. unfold pt. cbn [g_pts]. rewrite app_nth2 by (fold k; lia). fold k. replace (k + i - k)%nat with i by lia. reflexivity.
+Qed.
+
+(* ... and the points (hence step lengths as differences of consecutive points inside the old horizon) picked at these indices are the old ones *)
+Theorem restrict_tp_prepend pre g s e :
+  g_pts g <> [] -> (forall p, In p pre -> (p < s)%Z) ->
+  pick 0%Z (g_pts (prepend pre g)) (restrict_I (prepend pre g) s e) = pick 0%Z (g_pts g) (restrict_I g s e).
+Proof.
+  intros Hne Hpre. rewrite (restrict_I_prepend pre g s e Hne Hpre). unfold pick, prepend. cbn [g_pts]. rewrite map_map. apply map_ext.
+  intros i. rewrite app_nth2 by lia. f_equal. lia.
+Qed.
